@@ -40,6 +40,7 @@ pub fn child_main(args: &[String]) -> i32 {
         Some("fdcycles") => c16::child_fd_cycles(&args[1..]),
         Some("acceptfail") => c18::child_accept_fail(&args[1..]),
         Some("substorm") => c12::child_sub_storm(&args[1..]),
+        Some("c03open") => c03::child_rig_open(&args[1..]),
         _ => {
             eprintln!("unknown child kind");
             2
